@@ -209,6 +209,14 @@ def normalize_power(case, ctx):
 def long_case(draw, tier="quick"):
     m = draw(st.sampled_from([1023, 1024, 1101, 1500, 2047, 2048, 2049, 2600]))
     os_ = draw(st.sampled_from([1, 1, 1, 2, 3, 5]))
+    if draw(st.integers(0, 4)) == 0:
+        # a period one or two samples longer than a power-of-two-sized pupil ("one extra sample for a central pixel"):
+        # block-wise evaluations end with a block of a single output sample
+        m = draw(st.sampled_from([2048, 2048, 4096, 2049, 3000]))
+        n = draw(st.integers(2, 3))
+        Nr = m + draw(st.sampled_from([1, 1, 2]))
+        return {"m": m, "n": n, "N": [Nr, n + draw(st.integers(0, 2))], "oversample": 1, "axis": draw(st.integers(0, 1)),
+                "seed": draw(st.integers(0, 2**31 - 1)), "power": draw(gen.pos_log(1e-3, 1e3))}
     if draw(st.integers(0, 3)) == 0:
         # a small pupil imaged over one period of more than 2^14 oversampled rows
         m = draw(st.integers(8, 60))
